@@ -74,13 +74,13 @@ struct Reg
   {
     auto add = [](const std::string &name, int bq, int bt) { new McRegister(strdup(name.c_str()), entry, bq, bt, 6000); };
     add("conc_T1_n4", 1, 2);
-    add("conc_T2_n4", 2, 3);
-    add("conc_T2_n8", 2, 3);
-    add("conc_T3_n6", 2, 2);
+    add("conc_T2_n4", 3, 4);
+    add("conc_T2_n8", 3, 4);
+    add("conc_T3_n6", 2, 3);
     add("conc_T3_n12", 1, 2);
-    add("nconc_T2_n3", 2, 3);
+    add("nconc_T2_n3", 2, 4);
     for (const char *seq : {"21", "12", "22", "23", "32", "212", "121", "232"})
-      add(std::string("reinit_") + seq, 1, strlen(seq) == 3 ? 2 : 3);
+      add(std::string("reinit_") + seq, strchr(seq, '3') ? 1 : 2, strchr(seq, '3') ? 2 : 3);
   }
 };
 static Reg reg;
